@@ -134,6 +134,7 @@ func (t *Torrent) announce(ipv6 bool) {
 		prot = "IPv6"
 	}
 	t.Log.Printf("Starting %v announce for %v\n", prot, t.Hash)
+	verifAnnounce(t.Hash, ipv6, port)
 	dht.Announce(t.Hash, ipv6, port)
 	t.announceTime = time.Now()
 }
@@ -175,6 +176,7 @@ func (t *Torrent) run(ctx context.Context) {
 	}
 	ticker := time.NewTicker(5*time.Second + jiffy())
 	slowTicker := time.NewTicker(20*time.Second + jiffy())
+	verifTickers(ticker, slowTicker)
 	ctx, cancelCtx := context.WithCancel(ctx)
 	defer func() {
 		cancelCtx()
